@@ -74,11 +74,10 @@ def judge(case, impl, model):
     pfail = None
     finding = None
     regions = model['regions']
-    if ic == 'accept' and not model['spec'] and 'iterator' not in regions:
+    if ic == 'accept' and not model['spec'] and 'iterator' not in regions and 'fwdUnresolved' not in regions:
         pfail = 'accepted although the value does not conform to the annotation (spec `conforms` = false)'
         if corr:
-            if 'strAnn' in regions: finding = 'strAnnNameCollision'
-            elif 'namedtuple' in regions: finding = 'namedtupleStructural'
+            if 'namedtuple' in regions: finding = 'namedtupleStructural'
     ann, val = case['c']['ann'], case['c']['val']
     nontrivial = ann[0] not in ('cls', 'any', 'none') or val[0] not in ('lit', 'inst')
     return {'corr': corr, 'pfail': pfail, 'finding': finding, 'nontrivial': nontrivial,
